@@ -449,11 +449,23 @@ func (e *Engine) stdStub(full string, c *ast.CallExpr, recv *Value, args []Value
 		e.assume(st.pc, ite(eq(ln, e.izero()), and(eq(r.T, "65533"), eq(size.T, "0")),
 			and(sx("<=", "1", size.T), sx("<=", size.T, "4"), sx("<=", size.T, ln), sx("<=", "0", r.T), sx("<=", r.T, "1114111"),
 				ite(sx("<", b0, "128"), and(eq(r.T, b0), eq(size.T, "1")), sx(">=", r.T, "128")))))
+		// size agrees with the magnitude of the decoded rune (RuneError U+FFFD comes with size 1 or 3)
+		e.assume(st.pc, implies(not(eq(ln, e.izero())), and(
+			implies(and(sx(">=", r.T, "128"), sx("<", r.T, "2048")), eq(size.T, "2")),
+			implies(and(sx(">=", r.T, "2048"), sx("<", r.T, "65536"), not(eq(r.T, "65533"))), eq(size.T, "3")),
+			implies(eq(r.T, "65533"), or(eq(size.T, "1"), eq(size.T, "3"))),
+			implies(sx(">=", r.T, "65536"), eq(size.T, "4")))))
 		return res, true
 	case "unicode/utf8.RuneLen":
-		note(full + ": -1 or 1..4; <0x80 => 1")
+		note(full + ": -1 or 1..4, by the magnitude of the rune (surrogates and out-of-range give -1)")
 		res := e.pureUF(full, sig, recv, args, st)
-		e.assume(st.pc, and(sx("<=", "-1", res[0].T), sx("<=", res[0].T, "4"), not(eq(res[0].T, "0")), implies(and(sx("<=", "0", args[0].T), sx("<", args[0].T, "128")), eq(res[0].T, "1"))))
+		a := args[0].T
+		e.assume(st.pc, and(sx("<=", "-1", res[0].T), sx("<=", res[0].T, "4"), not(eq(res[0].T, "0")),
+			implies(and(sx("<=", "0", a), sx("<", a, "128")), eq(res[0].T, "1")),
+			implies(and(sx("<=", "128", a), sx("<", a, "2048")), eq(res[0].T, "2")),
+			implies(and(sx("<=", "2048", a), sx("<", a, "55296")), eq(res[0].T, "3")),
+			implies(and(sx("<=", "57344", a), sx("<", a, "65536")), eq(res[0].T, "3")),
+			implies(and(sx("<=", "65536", a), sx("<=", a, "1114111")), eq(res[0].T, "4"))))
 		return res, true
 	case "unicode/utf8.RuneCountInString", "unicode/utf8.RuneCount":
 		note(full + ": 0 <= n <= len; n == 0 iff len == 0")
